@@ -218,6 +218,20 @@ def task_concrete():
     return col.pack()
 
 
+def task_concrete_solver():
+    from . import c02_concrete
+    col = ob.Collector(PROP, 'solver/concrete')
+    for f in ('solver.solve', 'solver.residual'):
+        col.function(f)
+    seed = int(os.environ.get('VERIF_SEED', '0'))
+    tier = os.environ.get('VERIF_TIER', 'quick')
+    r = ob.guarded(c02_concrete.check_solver_operator, seeds=(seed,) if tier == 'quick' else (seed, seed + 1, seed + 2))
+    col.concrete('operator_applied_by_the_real_solver_is_that_of_the_model_given_at_the_call__along_in_place_edits_of_the_same_model', r['reproduced'] is False, r,
+                 bounded='4x4x4 grid, VTI model with mu_r, frequency and Laplace domain, three steps (fresh, property_x assigned, mu_r / property_z edited in place); '
+                         'solver.residual and the initial-residual test of solver.solve vs core.amat_x with a fresh VolumeModel, rel tol 1e-9', cases=r.get('cases', 0))
+    return col.pack()
+
+
 def tasks(tier):
     t = [('contracts.c02', 'task_rows', {}), ('contracts.c02', 'task_nullspace', {}),
          ('contracts.c02', 'task_concrete', {})]
@@ -226,6 +240,10 @@ def tasks(tier):
             t.append(('contracts.c02', 'task_symmetry', dict(a=a, b=b)))
     from . import c02_model
     t += c02_model.tasks(tier)
+    # which operator the thin wrappers apply (explorations of contracts/c01.py, only the operator clauses are kept)
+    t += [('contracts.c02', 'task_concrete_solver', {}), ('contracts.c01', 'task_residual', dict(prop=PROP)), ('contracts.c01', 'task_krylov', dict(cycle='F', prop=PROP))]
+    for ssl, cyc in ((False, 'F'), ('bicgstab', 'F'), ('bicgstab', None)):
+        t.append(('contracts.c01', 'task_solve', dict(sslsolver=ssl, cycle=cyc, supplied=True, prop=PROP)))
     return t
 
 
